@@ -1,18 +1,51 @@
 """C01, session layer (PARTIAL: the await plumbing is asyncio's): a real client `RPCSession` on a
-fake transport, a scripted peer that answers what was written in a permuted order (batch members
-permuted too, plus a replay and an unknown id), and the oracle "every caller gets what the peer
-sent under its request's id; `BatchRequest.results` is in the order the requests were added".
+fake transport with back-pressure, callers that are cancelled / time out at each point where
+`send_request` / `send_batch` can wait, and a scripted peer that answers what it saw ON THE WIRE
+(ids decoded from the written bytes) in any order, replays answers, answers late, answers
+malformed, or goes away.
 
-A scenario is JSON: {'layer': 'session', 'proto': .., 'calls': [['req'] | ['batch', 'rnr',
-raise_errors]], 'seed': n}.  The same traffic is replayed through the Lean model at connection
-level (sends in the order written, answers in the order delivered)."""
+A scenario is JSON:
+
+    {'layer': 'session', 'proto': .., 'seed': n, 'srt': sent_request_timeout, 'msd': max_send_delay,
+     'calls':  [['req'] | ['req', T] | ['batch', 'rnr', raise_errors] | ['batch', 'rnr', re, T]],
+     'script': [step, ..]}
+
+`T` = the caller wraps its call in `timeout_after(T)`.  Steps (the loop is run until nothing is
+runnable after every step; time is virtual):
+
+    ['call', i]        a task starts call i
+    ['pause'] / ['resume']   the socket send buffer is full / has drained (pause_writing /
+                       resume_writing reach the protocol; writers park in `transport.write`)
+    ['cancel', i]      the task of call i is cancelled
+    ['advance', dt]    dt seconds pass
+    ['answer', i, shape]     the peer answers the message of call i if it saw it; shape 'ok' (result
+                       or error per member, members in a seeded order) or 'mal' (single: a
+                       malformed response whose id is recoverable)
+    ['dup', i]         the peer repeats its answer to call i
+    ['unknown']        the peer answers an id it never saw
+    ['lost']           the connection drops
+
+Without 'script': every call is started, then every message seen is answered in a seeded order
+with one replay and one unknown id mixed in.
+
+The oracle (`session_oracle`) is written from the property text over what crossed the wire, in
+its true order (`FakeTransport.log`), and what each caller got:
+  * ids of requests on the wire that the peer has not answered yet are pairwise distinct;
+  * a caller that gets a result / error / batch outcome gets exactly what the peer sent in
+    answer to ITS message, and gets it when that answer arrives (if it is still waiting);
+  * an answer for something that is not outstanding is counted as a protocol error
+    (`session.errors`) and disturbs nobody; a later request is still answered.
+The same traffic is replayed through the Lean model at connection level: requests in the order
+the connection created them (recorded at the public `send_request` / `send_batch`), messages in
+the order delivered, futures cancelled by callers that gave up, the connection lost."""
 import asyncio
 import json
 import logging
 import random
 
 from harness import vloop
-from harness.c01 import (PROTO_CLASS, abstract, err_obj, make_resp, value, value_token)
+from harness.c01 import (PROTO_CLASS, OutsideModel, Resolver, abstract, fut_state, make_resp,
+                         value, value_token, wire_ids)
 from harness.c01_fake import make_session, settle
 from tools.facts.common import fresh_import
 
@@ -36,99 +69,260 @@ def result_token(jr, x):
     return f'v{t}' if t is not None else f'v?{x!r}'
 
 
-async def run_scenario(mods, sc):
-    jr, rawsocket, session_mod = mods
+def default_script(sc):
+    rng = random.Random(sc['seed'])
+    n = len(sc['calls'])
+    script = [['call', i] for i in range(n)]
+    order = list(range(n))
+    rng.shuffle(order)
+    stream = [['answer', i, 'ok'] for i in order]
+    if sc.get('noise', True):
+        stream.insert(rng.randint(1, len(stream)), ['dup', order[rng.randrange(n)]])
+        stream.insert(rng.randint(1, len(stream)), ['unknown'])
+    return script + stream
+
+
+def expected_token(sc, i, shape='ok'):
+    """what caller i must get if the peer's answer (of the given shape) reaches it"""
+    call = sc['calls'][i]
+    if call[0] == 'req':
+        if shape == 'mal':
+            return 'P'
+        kind, n = reply_for(i, 0)
+        return f'r{n}' if kind == 'val' else f'e{n}'
+    members = [j for j, c in enumerate(call[1]) if c == 'r']
+    toks = [tok_of(*reply_for(i, j)) for j in members]
+    want = 'b[' + ';'.join(toks) + ']'
+    if call[2] and any(t[0] == 'e' for t in toks):
+        want = 'B!' + want
+    return want
+
+
+async def run_scenario(mods, sc, id_step=1, fail_draws=(True, True)):
+    jr, rawsocket, session_mod, curio = mods
     proto = getattr(jr, PROTO_CLASS[sc['proto']])
     rng = random.Random(sc['seed'])
+    events = []            # the history, in order (see session_oracle)
+    created = []           # requests / batches in the order the connection created them
+
+    class RecConn(jr.JSONRPCConnection):
+        """records what goes through the connection's public send_request / send_batch"""
+        def send_request(self, request):
+            try:
+                message, future = super().send_request(request)
+            except Exception:   # noqa
+                created.append({'op': ['S', 0], 'ids': None, 'fut': None, 'n': 1})
+                events.append(('create', len(created) - 1))
+                raise
+            created.append({'op': ['S', 1], 'ids': wire_ids(message), 'fut': future, 'n': 1})
+            events.append(('create', len(created) - 1))
+            return message, future
+
+        def send_batch(self, batch):
+            ms = ''.join('r' if isinstance(x, jr.Request) else 'n' for x in batch)
+            try:
+                message, future = super().send_batch(batch)
+            except Exception:   # noqa
+                created.append({'op': ['B', ms, 0], 'ids': None, 'fut': None, 'n': ms.count('r')})
+                events.append(('create', len(created) - 1))
+                raise
+            created.append({'op': ['B', ms, 1], 'ids': wire_ids(message), 'fut': future,
+                            'n': ms.count('r')})
+            events.append(('create', len(created) - 1))
+            return message, future
 
     class Client(session_mod.RPCSession):
+        sent_request_timeout = float(sc.get('srt', 30.0))
+        max_send_delay = float(sc.get('msd', 20.0))
+
         def default_connection(self):
-            return jr.JSONRPCConnection(proto)
+            return RecConn(proto)
 
     logging.disable(logging.CRITICAL)
     _p, transport, session = make_session(rawsocket, Client, session_mod.SessionKind.CLIENT)
-    outcomes = [None] * len(sc['calls'])
+    ncalls = len(sc['calls'])
+    outcomes = [None] * ncalls
+    tasks = [None] * ncalls
+
+    async def one_call(i, call):
+        if call[0] == 'req':
+            r = await session.send_request('m', [i, 0])
+            return ('r' + result_token(jr, r)[1:]) if not isinstance(r, Exception) \
+                else result_token(jr, r)
+        batch = None
+        try:
+            async with session.send_batch(raise_errors=bool(call[2])) as batch:
+                for j, c in enumerate(call[1]):
+                    if c == 'r':
+                        batch.add_request('m', [i, j])
+                    else:
+                        batch.add_notification('n', [i, j])
+            pre = ''
+        except session_mod.BatchError:
+            pre = 'B!'
+        res = batch.results
+        return pre + ('none' if res is None else
+                      'b[' + ';'.join(result_token(jr, x) for x in res) + ']')
 
     async def do_call(i, call):
+        own = call[1] if call[0] == 'req' and len(call) > 1 else \
+            call[3] if call[0] == 'batch' and len(call) > 3 else None
         try:
-            if call[0] == 'req':
-                r = await session.send_request('m', [i, 0])
-                outcomes[i] = 'r' + result_token(jr, r)[1:] if not isinstance(r, Exception) \
-                    else result_token(jr, r)
+            if own:
+                async with curio.timeout_after(own):
+                    outcomes[i] = await one_call(i, call)
             else:
-                batch = None
-                try:
-                    async with session.send_batch(raise_errors=bool(call[2])) as batch:
-                        for j, c in enumerate(call[1]):
-                            if c == 'r':
-                                batch.add_request('m', [i, j])
-                            else:
-                                batch.add_notification('n', [i, j])
-                    pre = ''
-                except session_mod.BatchError:
-                    pre = 'B!'
-                res = batch.results
-                outcomes[i] = pre + ('none' if res is None else
-                                     'b[' + ';'.join(result_token(jr, x) for x in res) + ']')
+                outcomes[i] = await one_call(i, call)
         except jr.RPCError as e:
             outcomes[i] = f'e{e.code}' if e.message == f'm{e.code}' else f'e?{e.code}'
         except jr.ProtocolError:
             outcomes[i] = 'P'
+        except curio.TaskTimeout:
+            outcomes[i] = 'T'
         except asyncio.CancelledError:
             outcomes[i] = 'c'
         except Exception as e:   # noqa: observation
             outcomes[i] = '!' + type(e).__name__
 
-    tasks = [asyncio.ensure_future(do_call(i, c)) for i, c in enumerate(sc['calls'])]
-    await settle(12)
-    written = transport.take_messages()
+    seen_log = 0
+    seen_out = [None] * ncalls
+    created_by = {}        # index in `created` -> call index
+    parked = []            # indices in `created` of the callers parked in transport.write
+    fcancelled = set()
+    on_wire = {}           # call index -> its message as the peer saw it
+    answers = {}           # call index -> the answer the peer sent (for 'dup')
+    all_ids = []
+
+    def collect():
+        """move what happened since the last step into `events`, in order"""
+        nonlocal seen_log
+        for rec in transport.log[seen_log:]:
+            if rec[0] == 'w':
+                for line in rec[1].split(b'\n'):
+                    if not line:
+                        continue
+                    msg = json.loads(line)
+                    events.append(('w', msg))
+                    members = msg if isinstance(msg, list) else [msg]
+                    for m in members:
+                        if isinstance(m, dict) and m.get('id') is not None:
+                            all_ids.append(m['id'])
+                    first = members[0] if members else None
+                    if isinstance(first, dict) and isinstance(first.get('params'), list) \
+                            and first['params'] and any(m.get('id') is not None for m in members):
+                        on_wire.setdefault(first['params'][0], msg)
+            elif rec[0] == 'r':
+                events.append(('r',) + pending_meta.pop(0))
+            else:
+                events.append(('lost',))
+        seen_log = len(transport.log)
+        for k, c in enumerate(created):
+            if c['fut'] is not None and k not in fcancelled and c['fut'].cancelled():
+                fcancelled.add(k)
+                events.append(('fcancel', k))
+        for i in range(ncalls):
+            if outcomes[i] is not None and seen_out[i] is None:
+                seen_out[i] = outcomes[i]
+                for k in [k for k in parked if created_by.get(k) == i]:
+                    # it gave up while parked: its message will never be written
+                    events.append(('drop', parked.index(k)))
+                    parked.remove(k)
+                events.append(('o', i, outcomes[i]))
+
+    pending_meta = []      # meta of the chunks fed but not yet delivered (reading paused)
     style = 'v2' if sc['proto'] == 'auto' else sc['proto']
-    # the peer answers every request it saw, recording what it sent under which id
-    answers, conn_ops = [], []
-    for msg in written:
+
+    def peer_send(payload, meta):
+        if transport.lost or transport.closing:
+            return
+        pending_meta.append((payload,) + meta)
+        transport.feed(json.dumps(payload).encode() + b'\n')
+
+    def answer_payload(i, shape):
+        msg = on_wire[i]
         members = msg if isinstance(msg, list) else [msg]
         reqs = [m for m in members if m.get('id') is not None]
-        if isinstance(msg, list):
-            conn_ops.append(['B', ''.join('r' if m.get('id') is not None else 'n' for m in members), 1])
-        else:
-            conn_ops.append(['S', 1])
-        if not reqs:
-            continue
+        if isinstance(msg, dict):
+            if shape == 'mal':
+                return make_resp(style, msg['id'], 'mal1', 4)
+            kind, n = reply_for(*msg['params'])
+            return make_resp(style, msg['id'], kind, n)
         parts = []
         for m in reqs:
             kind, n = reply_for(*m['params'])
             parts.append(make_resp(style, m['id'], kind, n))
-        if isinstance(msg, list):
-            rng.shuffle(parts)
-            answers.append(['L', parts])
+        rng.shuffle(parts)
+        return parts
+
+    script = sc.get('script') or default_script(sc)
+    for step in script:
+        k = step[0]
+        ncreated = len(created)
+        if k == 'call':
+            i = step[1]
+            if tasks[i] is None:
+                tasks[i] = asyncio.ensure_future(do_call(i, sc['calls'][i]))
+        elif k == 'pause':
+            if not transport.paused_writing and not transport.closing:
+                events.append(('pause',))
+            transport.env_pause()
+        elif k == 'resume':
+            if transport.paused_writing:
+                events.append(('resume',))
+                parked.clear()
+            transport.env_resume()
+        elif k == 'cancel':
+            if tasks[step[1]] is not None and not tasks[step[1]].done():
+                tasks[step[1]].cancel()
+        elif k == 'advance':
+            await asyncio.sleep(step[1])
+        elif k == 'answer':
+            i, shape = step[1], (step[2] if len(step) > 2 else 'ok')
+            if i in on_wire and i not in answers:
+                if shape == 'mal' and not isinstance(on_wire[i], dict):
+                    shape = 'ok'
+                answers[i] = answer_payload(i, shape)
+                peer_send(answers[i], ('answer', i, shape))
+        elif k == 'dup':
+            if step[1] in answers:
+                peer_send(answers[step[1]], ('dup', step[1], 'ok'))
+        elif k == 'unknown':
+            unused = (max([x for x in all_ids if isinstance(x, int)] or [0])) + 10_000
+            peer_send(make_resp(style, unused, 'val', 1), ('unknown', -1, 'ok'))
+        elif k == 'lost':
+            transport.drop()
         else:
-            answers.append(['R', parts[0]])
-    rng.shuffle(answers)
-    extra = []
-    if answers and sc.get('noise', True):
-        extra.append(answers[rng.randrange(len(answers))])                     # a replay
-        extra.append(['R', make_resp(style, 10_000, 'val', 1)])                # unknown id
-    stream = list(answers)
-    for e in extra:
-        stream.insert(rng.randint(1, len(stream)), e)
-    for kind, payload in stream:
-        _p.data_received(json.dumps(payload).encode() + b'\n')
-        await settle(8)
+            raise ValueError(step)
+        await settle(12)
+        if k == 'call':
+            for kk in range(ncreated, len(created)):
+                created_by[kk] = step[1]
+                if created[kk]['ids'] is not None and transport.paused_writing \
+                        and not transport.closing:
+                    parked.append(kk)
+        if transport.lost:
+            parked.clear()
+        collect()
     await settle(12)
-    stuck = [i for i, t in enumerate(tasks) if not t.done()]
+    collect()
+    futs = [fut_state(jr, c['fut']) for c in created if c['fut'] is not None]
+    pending = len(session.connection.pending_requests())
+    history = list(events)         # the probe below is not part of the judged history
+    stuck = [i for i, t in enumerate(tasks) if t is not None and not t.done()]
     for t in tasks:
-        if not t.done():
+        if t is not None and not t.done():
             t.cancel()
     await settle(4)
     errors = session.errors
     # a later request is still answered (the message loop survived the noise)
     alive = None
-    if not transport.is_closing():
+    if not transport.is_closing() and not transport.paused_writing:
+        transport.take_messages()
         probe = asyncio.ensure_future(session.send_request('m', [99, 0]))
         await settle(8)
         w = transport.take_messages()
         if w and isinstance(w[-1], dict) and 'id' in w[-1]:
-            _p.data_received(json.dumps(make_resp(style, w[-1]['id'], 'val', 7)).encode() + b'\n')
+            transport.feed(json.dumps(make_resp(style, w[-1]['id'], 'val', 7)).encode() + b'\n')
             await settle(8)
         alive = probe.done() and not probe.cancelled() and probe.exception() is None \
             and probe.result() == value(7)
@@ -136,38 +330,134 @@ async def run_scenario(mods, sc):
             probe.cancel()
     await session.close()
     logging.disable(logging.NOTSET)
-    return {'outcomes': outcomes, 'written': written, 'conn_ops': conn_ops + stream,
-            'stuck': stuck, 'errors': errors, 'alive': alive, 'noise': len(extra)}
+    # connection-level history for the model
+    rs = Resolver(id_step)
+    conn_ops, ticket_of, nt = [], {}, 0
+    for e in history:
+        if e[0] == 'create':
+            c = created[e[1]]
+            used = c['n'] if c['ids'] is not None or fail_draws[0 if c['op'][0] == 'S' else 1] else 0
+            rs.drew(used, c['ids'])
+            conn_ops.append(c['op'])
+            if c['fut'] is not None:
+                ticket_of[e[1]] = nt
+                nt += 1
+        elif e[0] == 'r':
+            conn_ops.append(['L' if isinstance(e[1], list) else 'R', e[1]])
+        elif e[0] == 'fcancel':
+            conn_ops.append(['X', ticket_of[e[1]]])
+        elif e[0] == 'lost':
+            conn_ops.append(['C'])
+    try:
+        start = rs.start()
+    except OutsideModel as e:
+        start = str(e)
+    # the same history at session level (Sess.lean): who parked, who gave up where
+    sess_ops = []
+    for e in history:
+        if e[0] == 'create':
+            sess_ops.append(created[e[1]]['op'])
+        elif e[0] == 'r':
+            sess_ops.append(['L' if isinstance(e[1], list) else 'R', e[1]])
+        elif e[0] == 'fcancel':
+            sess_ops.append(['X', ticket_of[e[1]]])
+        elif e[0] == 'lost':
+            sess_ops.append(['C'])
+        elif e[0] == 'pause':
+            sess_ops.append(['P'])
+        elif e[0] == 'resume':
+            sess_ops.append(['U'])
+        elif e[0] == 'drop':
+            sess_ops.append(['D', e[1]])
+    wire = []
+    for e in history:
+        if e[0] == 'w':
+            members = e[1] if isinstance(e[1], list) else [e[1]]
+            wire.append(','.join(str(m['id']) for m in members
+                                 if isinstance(m, dict) and m.get('id') is not None))
+    return {'outcomes': outcomes,
+            'events': [list(e) for e in history if e[0] in ('w', 'r', 'lost', 'o', 'fcancel')],
+            'conn_ops': conn_ops, 'sess_ops': sess_ops, 'wire': 'w' + ';'.join(wire),
+            'start': start, 'futs': futs, 'pending': pending,
+            'stuck': stuck, 'errors': errors, 'alive': alive}
+
+
+RESPONSE_LIKE = ('r', 'e', 'b', 'P', 'B')
 
 
 def session_oracle(sc, obs):
-    """None or (key, why): every caller got what the peer sent under its id, in member order"""
-    if obs['stuck']:
-        return 'c01:session-caller-never-completed', f'calls {obs["stuck"]} still waiting'
+    """None or (key, why) - see the module docstring"""
+    unanswered = {}        # call index -> ids of its message, written and not yet answered
+    delivered = {}         # call index -> (event index, token the caller must get)
+    got = {}               # call index -> (event index, outcome)
+    rejected_due = 0
+    for x, e in enumerate(obs['events']):
+        if e[0] == 'w':
+            msg = e[1]
+            members = msg if isinstance(msg, list) else [msg]
+            reqs = [m for m in members if isinstance(m, dict) and m.get('id') is not None]
+            if not reqs:
+                continue
+            ids = [m['id'] for m in reqs]
+            for j, i in enumerate(ids):
+                if i in ids[:j]:
+                    return 'c01:id-not-fresh', f'id {i!r} twice in one batch on the wire: {msg}'
+                for other, oids in unanswered.items():
+                    if i in oids:
+                        return ('c01:id-not-fresh',
+                                f'request(s) {msg} written with id {i!r} while the request of call '
+                                f'{other} with the same id is on the wire and unanswered')
+            who = reqs[0].get('params', [None])[0]
+            unanswered[who] = ids
+        elif e[0] == 'r':
+            _payload, kind, i, shape = e[1], e[2], e[3], e[4]
+            if kind in ('answer', 'dup') and i in unanswered:
+                del unanswered[i]
+                delivered.setdefault(i, (x, expected_token(sc, i, shape)))
+            else:
+                rejected_due += 1
+        elif e[0] == 'lost':
+            unanswered.clear()
+        elif e[0] == 'o':
+            got[e[1]] = (x, e[2])
     for i, call in enumerate(sc['calls']):
-        got = obs['outcomes'][i]
-        if call[0] == 'req':
-            kind, n = reply_for(i, 0)
-            want = f'r{n}' if kind == 'val' else f'e{n}'
-        else:
-            members = [j for j, c in enumerate(call[1]) if c == 'r']
-            toks = [tok_of(*reply_for(i, j)) for j in members]
-            want = 'b[' + ';'.join(toks) + ']'
-            if call[2] and any(t[0] == 'e' for t in toks):
-                want = 'B!' + want
-            if not members:
-                if got == '!TypeError':
-                    return ('c01:notification-only-batch-typeerror',
-                            f'call {i} {call}: TypeError after the batch was written')
-                want = 'b[]'
-        if got != want:
-            return 'c01:session-wrong-outcome', f'call {i} {call}: got {got}, the peer sent {want}'
+        members = call[1].count('r') if call[0] == 'batch' else 1
+        out = got.get(i)
+        if members == 0:
+            if out and out[1] == '!TypeError':
+                return ('c01:notification-only-batch-typeerror',
+                        f'call {i} {call}: TypeError after the batch was written')
+            if out and out[1] not in ('b[]', 'c', 'T'):
+                return 'c01:session-wrong-outcome', f'call {i} {call}: got {out[1]}, nothing to wait for'
+            continue
+        if out and out[1][0] in RESPONSE_LIKE:
+            d = delivered.get(i)
+            if d is None or d[0] > out[0] or d[1] != out[1]:
+                sent = 'nothing yet' if d is None or d[0] > out[0] else d[1]
+                return ('c01:session-wrong-outcome',
+                        f'call {i} {call}: got {out[1]}; under its id the peer had sent {sent}')
+        # (what a caller that was never answered ends with - cancellation, a time-out, any other
+        # exception - is not this property's business; the model comparison sees its future)
+        d = delivered.get(i)
+        if d is not None and (out is None or out[0] > d[0]):
+            # it was still waiting when the peer's answer arrived
+            if out is None:
+                return ('c01:session-caller-never-completed',
+                        f'call {i} {call}: the peer answered {d[1]}, the caller is still waiting')
+            if out[1] != d[1]:
+                return ('c01:session-wrong-outcome',
+                        f'call {i} {call}: got {out[1]}, the peer sent {d[1]}')
+    if obs['errors'] < rejected_due:
+        return ('c01:session-unknown-id-not-rejected',
+                f'{rejected_due} answers to ids that were not outstanding, session.errors = {obs["errors"]}')
     if obs['alive'] is False:
-        return 'c01:session-dead-after-responses', 'a later request was not answered'
+        return ('c01:session-dead-after-responses',
+                'a request made after all this did not complete with the result the peer sent under its id')
     return None
 
 
-def scenarios(rng, n, protos=('v2', 'loose', 'v1', 'auto')):
+# ------------------------------------------------------------------ scenario families
+def basic_scenarios(rng, n, protos=('v2', 'loose', 'v1', 'auto')):
     out = []
     # fixed ones first: the notification-only batch (F19), mixed shapes
     for proto in ('v2', 'loose', 'auto'):
@@ -187,52 +477,262 @@ def scenarios(rng, n, protos=('v2', 'loose', 'v1', 'auto')):
     return out
 
 
+def backpressure_scenarios(protos=('v2',), laters=(0, 2, 3), seed=0):
+    """One sender (a request or a batch) gives up - cancelled, or its own timeout fires - at each
+    point where it can wait: parked in `transport.write` behind a full send buffer, or awaiting
+    the response.  Around it: 0-2 senders blocked before it and 0-2 after it; then the buffer
+    drains and 0-3 further requests are made; the peer answers everything it saw (in the order
+    seen or reversed) and repeats one answer."""
+    out = []
+    for proto in protos:
+        for nb in (0, 1, 2):
+            for na in (0, 1, 2):
+                for vkind in ('req', 'batch'):
+                    if proto == 'v1' and vkind == 'batch':
+                        continue
+                    for giveup in ('cancel', 'timeout'):
+                        for point in ('write', 'response'):
+                            for nl in laters:
+                                calls, script = [], [['pause']]
+                                for _ in range(nb):
+                                    calls.append(['req'])
+                                    script.append(['call', len(calls) - 1])
+                                v = len(calls)
+                                if vkind == 'req':
+                                    calls.append(['req', 5] if giveup == 'timeout' else ['req'])
+                                else:
+                                    calls.append(['batch', 'rr', 0, 5] if giveup == 'timeout'
+                                                 else ['batch', 'rr', 0])
+                                script.append(['call', v])
+                                for _ in range(na):
+                                    calls.append(['req'])
+                                    script.append(['call', len(calls) - 1])
+                                drop = [['cancel', v]] if giveup == 'cancel' else [['advance', 6]]
+                                if point == 'write':
+                                    script += drop + [['resume']]
+                                else:
+                                    script += [['resume']] + drop
+                                for _ in range(nl):
+                                    calls.append(['req'] if len(calls) % 3 or proto == 'v1'
+                                                 else ['batch', 'rnr', 0])
+                                    script.append(['call', len(calls) - 1])
+                                order = list(range(len(calls)))
+                                if (nb + na + nl) % 2:
+                                    order.reverse()
+                                script += [['answer', i, 'ok'] for i in order]
+                                script += [['dup', order[0]], ['dup', v]]
+                                out.append({'layer': 'session', 'proto': proto, 'calls': calls,
+                                            'script': script, 'seed': seed + len(out)})
+    return out
+
+
+def reply_scenarios(protos=('v2', 'loose', 'v1', 'auto')):
+    """malformed-with-id replies, late replies after a timeout (the caller's own and the
+    session's sent_request_timeout), replies repeated after that, a lost connection, a send
+    buffer that stays full for longer than max_send_delay"""
+    out = []
+    for proto in protos:
+        b = ['req'] if proto == 'v1' else ['batch', 'rnr', 1]
+        c3 = [['req'], b, ['req']]
+        go = [['call', 0], ['call', 1], ['call', 2]]
+        S = lambda calls, script, **kw: out.append(dict(   # noqa: E731
+            {'layer': 'session', 'proto': proto, 'calls': calls, 'script': script, 'seed': 3}, **kw))
+        # a malformed response whose id is recoverable completes exactly that request
+        S(c3, go + [['answer', 2, 'mal'], ['answer', 0, 'ok'], ['dup', 2], ['answer', 1, 'ok']])
+        S(c3, go + [['answer', 0, 'mal'], ['dup', 0], ['unknown'], ['answer', 1, 'ok'],
+                    ['answer', 2, 'mal']])
+        # late reply after the caller's own timeout, then a replay of it
+        S([['req', 5], b, ['req']], go + [['advance', 6], ['answer', 0, 'ok'], ['dup', 0],
+                                          ['answer', 2, 'ok'], ['answer', 1, 'ok']])
+        # late replies after the session's sent_request_timeout; later requests are fine
+        S(c3 + [['req'], b], go + [['advance', 9], ['answer', 1, 'ok'], ['call', 3], ['call', 4],
+                                   ['answer', 0, 'ok'], ['answer', 4, 'ok'], ['dup', 1],
+                                   ['answer', 3, 'ok'], ['answer', 2, 'mal']], srt=8)
+        # a cancelled caller's late reply
+        S(c3, go + [['cancel', 1], ['answer', 1, 'ok'], ['answer', 0, 'ok'], ['dup', 1],
+                    ['answer', 2, 'ok']])
+        # the connection is lost with requests outstanding
+        S(c3, go + [['answer', 1, 'ok'], ['lost'], ['answer', 0, 'ok']])
+        S(c3, [['pause']] + go + [['lost'], ['resume']])
+        # the send buffer stays full for longer than max_send_delay: the session aborts
+        S(c3 + [['req']], [['call', 0], ['answer', 0, 'ok'], ['pause'], ['call', 1], ['call', 2],
+                           ['advance', 25], ['resume'], ['call', 3]])
+    return out
+
+
+def semaphore_scenarios(protos=('v2',)):
+    """The third place where a sender can wait: more than 50 outgoing calls at once queue at the
+    session's outgoing-concurrency semaphore (after their ids were drawn, before their message is
+    written).  53 requests; one of the three that queue is cancelled / times out there; answers
+    free slots so that the others get written; then later requests; everything is answered.
+    (The Lean session model does not have the semaphore: for these scenarios only the
+    connection-level history is compared with the model.)"""
+    out = []
+    for proto in protos:
+        for victim in (50, 51, 52):
+            for giveup in ('cancel', 'timeout'):
+                calls = [['req'] for _ in range(53)]
+                if giveup == 'timeout':
+                    calls[victim] = ['req', 5]
+                script = [['call', i] for i in range(53)]
+                script += [['cancel', victim]] if giveup == 'cancel' else [['advance', 6]]
+                script += [['answer', 0, 'ok'], ['answer', 1, 'ok'], ['answer', 2, 'ok']]
+                calls += [['req'], ['req'] if proto == 'v1' else ['batch', 'rr', 0]]
+                script += [['call', 53], ['call', 54]]
+                rest = [i for i in range(55) if i > 2]
+                if victim % 2:
+                    rest.reverse()
+                script += [['answer', i, 'ok'] for i in rest] + [['dup', 52], ['dup', victim]]
+                out.append({'layer': 'session', 'proto': proto, 'calls': calls, 'script': script,
+                            'seed': victim, 'srt': 1000})
+    return out
+
+
+def random_scenarios(rng, n, protos=('v2', 'loose', 'v1', 'auto')):
+    """seeded random scripts over all step kinds: calls (some with their own time-out), buffer
+    full / drained, cancellations, time passing (also beyond max_send_delay = 20 and
+    sent_request_timeout = 30), answers (also malformed-with-id), replays, unknown ids, the
+    connection lost - in any order"""
+    out = []
+    for k in range(n):
+        proto = protos[k % len(protos)]
+        ncalls = rng.randint(2, 7)
+        calls = []
+        for _ in range(ncalls):
+            own = [rng.choice([3, 5, 8])] if rng.random() < 0.25 else []
+            if proto == 'v1' or rng.random() < 0.6:
+                calls.append(['req'] + own)
+            else:
+                ms = ''.join(rng.choice('rrn') for _ in range(rng.randint(1, 3)))
+                calls.append(['batch', ms, int(rng.random() < 0.3)] + own)
+        script, started, paused = [], [], False
+        todo = list(range(ncalls))
+        for _ in range(rng.randint(ncalls + 2, 3 * ncalls + 8)):
+            r = rng.random()
+            if todo and r < 0.30:
+                i = todo.pop(0)
+                started.append(i)
+                script.append(['call', i])
+            elif r < 0.40:
+                script.append(['resume'] if paused else ['pause'])
+                paused = not paused
+            elif r < 0.48 and started:
+                script.append(['cancel', rng.choice(started)])
+            elif r < 0.56:
+                script.append(['advance', rng.choice([1, 2, 4, 6, 9, 12, 25, 35])])
+            elif r < 0.82 and started:
+                script.append(['answer', rng.choice(started), 'mal' if rng.random() < 0.12 else 'ok'])
+            elif r < 0.90 and started:
+                script.append(['dup', rng.choice(started)])
+            elif r < 0.95:
+                script.append(['unknown'])
+            elif r < 0.97:
+                script.append(['lost'])
+        if paused and rng.random() < 0.8:
+            script.append(['resume'])
+        script += [['call', i] for i in todo]
+        script += [['answer', i, 'ok'] for i in range(ncalls) if rng.random() < 0.8]
+        out.append({'layer': 'session', 'proto': proto, 'calls': calls, 'script': script,
+                    'seed': rng.randrange(10**6)})
+    return out
+
+
+def scenarios(rng, n, tier='quick'):
+    out = basic_scenarios(rng, n)
+    out += reply_scenarios()
+    out += semaphore_scenarios(('v2',) if tier == 'quick' else ('v2', 'loose', 'v1', 'auto'))
+    out += random_scenarios(rng, 5 * n)
+    if tier == 'quick':
+        out += backpressure_scenarios(('v2', 'loose', 'v1', 'auto'), laters=(0, 2, 3))
+    else:
+        out += backpressure_scenarios(('v2', 'loose', 'v1', 'auto'), laters=(0, 1, 2, 3))
+    return out
+
+
 def _evaluate(ctx, scs, res):
     jr = fresh_import(ctx.repo, 'aiorpcx.jsonrpc')
     rawsocket = fresh_import(ctx.repo, 'aiorpcx.rawsocket')
     session_mod = fresh_import(ctx.repo, 'aiorpcx.session')
-    mods = (jr, rawsocket, session_mod)
+    curio = fresh_import(ctx.repo, 'aiorpcx.curio')
+    mods = (jr, rawsocket, session_mod, curio)
+    from harness.c01 import id_params
+    id_step, fail_draws = id_params(ctx.facts)
 
-    async def go():
+    async def go(part):
         out = []
-        for sc in scs:
+        for sc in part:
             try:
-                out.append(await run_scenario(mods, sc))
+                out.append(await run_scenario(mods, sc, id_step, fail_draws))
             except (vloop.Deadlock, vloop.Livelock) as e:
                 out.append({'hang': type(e).__name__})
         return out
-    obs_list = vloop.run(go())
-    lines, idx = [], []
+    # a fresh virtual loop per 50 scenarios: the loop's no-progress watchdog counts iterations
+    # without virtual-time progress, and most scenarios never let time pass
+    obs_list = []
+    for a in range(0, len(scs), 50):
+        part = scs[a:a + 50]
+        try:
+            obs_list += vloop.run(go(part))
+        except (vloop.Deadlock, vloop.Livelock) as e:
+            # outside any scenario's own await: find the scenario by running them one by one
+            for sc in part:
+                try:
+                    obs_list += vloop.run(go([sc]))
+                except (vloop.Deadlock, vloop.Livelock) as e2:
+                    obs_list.append({'hang': type(e2).__name__})
+    lines, idx, has_w = [], [], {}
     for k, (sc, obs) in enumerate(zip(scs, obs_list)):
         if 'hang' in obs:
             res.violation('c01:session-hang', sc, obs['hang'])
             continue
         v = session_oracle(sc, obs)
         if v:
-            res.violation(v[0], sc, v[1], impl=obs['outcomes'])
+            res.violation(v[0], sc, v[1], impl=obs['outcomes'],
+                          wire=[e for e in obs['events'] if e[0] in ('w', 'r', 'lost')][:40])
         # connection-level replay of the same traffic through the model
         try:
-            lines.append(abstract({'proto': sc['proto'], 'ops': obs['conn_ops']}))
+            if isinstance(obs['start'], str):
+                raise OutsideModel(obs['start'])
+            a = abstract({'proto': sc['proto'], 'ops': obs['conn_ops']}, start=obs['start'])
+            if len(sc['calls']) <= 40:
+                b = abstract({'proto': sc['proto'], 'ops': obs['sess_ops']}, variant='W',
+                             start=obs['start'] or 0)
+            else:
+                b = None      # callers queue at the concurrency semaphore: outside Sess.lean
+            lines += [a, b or a]
             idx.append(k)
+            has_w[k] = b is not None
+        except OutsideModel as e:
+            res.disagreement(sc, obs['futs'], f'ids outside the model: {e}')
         except ValueError:
-            pass
+            res.count('session_outside_model_grid')
         res.count('session_calls', len(sc['calls']))
-        res.count('session_noise_messages', obs['noise'])
+        res.count('session_wire_events', len(obs['events']))
+        res.count('session_senders_parked_and_gave_up',
+                  int(any(s[0] == 'pause' for s in sc.get('script', []))))
+        if any(e[0] == 'r' for e in obs['events']) and len(sc['calls']) >= 2:
+            res.nontrivial('session:' + json.dumps([sc['proto'], sc['calls'], sc.get('script'),
+                                                    sc['seed']]))
     model = ctx.model(lines)
     if model is not None:
-        for line, out, k in zip(lines, model, idx):
+        for n, k in enumerate(idx):
             sc, obs = scs[k], obs_list[k]
-            futs = out.split(' ')[-1]
-            futs = [] if futs == '.' else futs.split(',')
-            # futures in creation order = calls in the order their message was written
-            order = []
-            for msg in obs['written']:
-                first = (msg if isinstance(msg, dict) else msg[0])['params'][0]
-                if isinstance(msg, dict) or any(m.get('id') is not None for m in msg):
-                    order.append(first)
-            want = [obs['outcomes'][i].replace('B!', '') for i in order]
-            if futs != want and not res.n_violations:
-                res.disagreement(sc, want, futs, model_line=line)
+            line, out = lines[2 * n], model[2 * n]
+            # session level: table, futures and the ids on the wire in wire order
+            have_w = f'#{obs["pending"]} ' + (','.join(obs['futs']) if obs['futs'] else '.') \
+                + ' ' + obs['wire']
+            if has_w[k] and model[2 * n + 1] != have_w and not res.n_violations:
+                res.disagreement(sc, have_w, model[2 * n + 1], model_line=lines[2 * n + 1])
+            toks = out.split(' ')
+            futs = [] if toks[-1] == '.' else toks[-1].split(',')
+            pending = toks[-2]
+            # received messages the model rejects = protocol errors the session must count
+            rejected = sum(1 for op, t in zip(obs['conn_ops'], toks[:-2])
+                           if op[0] in 'RL' and t == '!P')
+            want = (futs, pending, rejected)
+            have = (obs['futs'], f'#{obs["pending"]}', obs['errors'])
+            if want != have and not res.n_violations:
+                res.disagreement(sc, list(have), list(want), model_line=line)
     res['evaluations'] += len(scs)
     res['scopes']['session_scenarios'] = res['scopes'].get('session_scenarios', 0) + len(scs)
 
@@ -240,7 +740,9 @@ def _evaluate(ctx, scs, res):
 def run(ctx, res):
     from harness.c01 import unlisted_failure
     n = 60 if unlisted_failure(ctx, res) else (1500 if ctx.tier == 'thorough' else 200 if ctx.deep else 60)
-    _evaluate(ctx, scenarios(ctx.rng, n), res)
+    tier = 'quick' if (ctx.tier != 'thorough' and not ctx.deep) or unlisted_failure(ctx, res) \
+        else 'thorough'
+    _evaluate(ctx, scenarios(ctx.rng, n, tier), res)
 
 
 def replay(ctx, case, res):
